@@ -6,7 +6,7 @@ Yield points — the only places where control can pass from one caller to anoth
   * acquiring the instrumented lock assigned to `conn.channel.channel_lock`
     (with channel_lock off the harness pauses once before each operation instead).
 A schedule is a list of entries: an id c (0..9) = run caller c; 10+c = CANCEL caller c if it is parked waiting for the lock
-(asyncio only: task.cancel(), what asyncio.wait_for does when a timeout expires; not enabled otherwise).  At every run entry the controller releases exactly that caller, which runs
+(asyncio only: task.cancel() and nothing else — a real timeout additionally closes the transport, see c19_timed.py; not enabled otherwise).  At every run entry the controller releases exactly that caller, which runs
 until it parks at its next yield point or finishes its program; a caller that is finished, or parked at the
 lock while the lock is held, is *not enabled* and the entry is skipped.  Exactly one caller runs at any
 time, so a run is a function of (programs, schedule, fault): no wall clock, no OS scheduling.
